@@ -38,6 +38,7 @@ fn main() {
     let mut em = Emit { out: Box::new(shared), n: 0 };
     // HS_SHARD=i/k splits the schedule suites over k processes; everything else runs in shard 0
     let shard0 = std::env::var("HS_SHARD").map_or(true, |s| s.starts_with("0/"));
+    let run = std::panic::catch_unwind(std::panic::AssertUnwindSafe(|| {
     match prop {
         "C01" => suites_body::c01(&mut em, thorough, seed),
         "C02" => suites_body::c02(&mut em, thorough, seed),
@@ -84,6 +85,16 @@ fn main() {
             eprintln!("unknown property {}", prop);
             std::process::exit(2);
         }
+    }
+    }));
+    if run.is_err() {
+        // a panic of the code under test outside a guarded call (the guarded ones are recorded
+        // as outcomes): report what was running as a failed predicate; earlier records stay valid
+        em.pred_only(
+            &common::current_desc(),
+            "FAIL:panic in the code under test (in a call the harness does not expect to panic)",
+            "panic",
+        );
     }
     use std::io::Write;
     em.out.flush().unwrap();
